@@ -90,7 +90,9 @@ def contiguous_range(sub, full):
 
 
 def draw(rng, tier):
-    return dict(nops=rng.choice([3, 6, 12, 25]), big=rng.random() < 0.5, init=rng.choice([0, 0, 1, 3]))
+    # fs_ubuf: files opened with open(path, 'wb') buffer in user space as CPython does (what is not flushed or closed
+    # is not in the file when the process is killed); replay files recorded before this was modelled lack the flag
+    return dict(nops=rng.choice([3, 6, 12, 25]), big=rng.random() < 0.5, init=rng.choice([0, 0, 1, 3]), fs_ubuf=True)
 
 
 def gen_ops(rng, cfg):
@@ -133,6 +135,7 @@ def execute(seed, cfg, ops, enumerate_kills=True):
     C = Ctx(seed)
     fs = C.fs
     fs.cost = 0
+    fs.ubuf = bool(cfg.get('fs_ubuf', False))
     viol = []
     dig = hashlib.sha256()
     states = set()
